@@ -1406,7 +1406,14 @@ class AgProtocol(utils.EventEmitter):
         at_bcs_future = asyncio.get_running_loop().create_future()
         self.once('codec_negotiation', at_bcs_future.set_result)
         self.send_response(f'+BCS: {codec.value}')
-        if (new_codec := await at_bcs_future) != codec:
+        try:
+            new_codec = await at_bcs_future
+        except asyncio.CancelledError:
+            # Abandoned (the HF never confirmed): don't leave the listener behind, it
+            # would fail on the next negotiation and keep that one from completing.
+            self.remove_listener('codec_negotiation', at_bcs_future.set_result)
+            raise
+        if new_codec != codec:
             raise HfpProtocolError(f'Expect codec: {codec}, but get {new_codec}')
 
     def send_cli_notification(self, cli: CallLineIdentification) -> None:
